@@ -137,7 +137,7 @@ func ruleC08CopyFields(c *Ctx) {
 			}
 			if qt := c.P.namedStruct(modPath, "Query"); qt != nil {
 				for i := 0; i < qt.NumFields(); i++ {
-					fn := qt.Field(i).Name()
+					fn := fieldVarName(qt.Field(i))
 					_, isReset := reset[fn]
 					c.Check(got[fn] || isReset, "c08.copy-fields", key+"/"+fn+"/accounted", c.P.Pos(f.Pos()),
 						"carried into the copy or an enumerated per-copy reset", "field "+fn+" of Query is neither carried into the per-dimension copy nor an enumerated per-copy reset: state the statement builder put there is lost for inner arrays")
